@@ -2,6 +2,7 @@ package main
 
 import (
 	"fmt"
+	"strconv"
 	"strings"
 	"go/ast"
 	"go/token"
@@ -285,7 +286,7 @@ func (e *Eng) execAssign(st *State, s *ast.AssignStmt) *State {
 			t := e.info.TypeOf(r.Type)
 			if sortOf(t) == "Iface" {
 				// assertion to an interface type: whether the dynamic type implements it is not modelled
-				okb := e.freshVal("implements", types.Typ[types.Bool])
+				okb := scalar(e.implTerm(v, t), "Bool", types.Typ[types.Bool])
 				e.assume(st, fmt.Sprintf("(=> %s (not (= (itag %s) 0)))", okb.T, v.T))
 				mv := scalar(e.define("ta", "Iface", fmt.Sprintf("(ite %s %s inil)", okb.T, v.T)), "Iface", t)
 				e.assign(st, s.Lhs[0], mv)
@@ -331,6 +332,11 @@ func (e *Eng) execAssign(st *State, s *ast.AssignStmt) *State {
 				idxVal = e.eval(st, ix.Index)
 			}
 		}
+		if sx, ok := ast.Unparen(s.Lhs[0]).(*ast.SelectorExpr); ok {
+			if id, ok := ast.Unparen(sx.X).(*ast.Ident); ok {
+				keys = append(keys, "assign "+id.Name+".*")
+			}
+		}
 		if _, exact := e.con.At[keys[0]]; exact && len(keys) > 1 {
 			keys = keys[:1] // an exact-text anchor takes precedence over the base[*] wildcard
 		}
@@ -345,6 +351,7 @@ func (e *Eng) execAssign(st *State, s *ast.AssignStmt) *State {
 			if idxVal != nil {
 				env["idx"] = idxVal
 			}
+			env["rhsNonNull"] = scalar(strconv.FormatBool(e.rhsNonNull(s.Rhs[0])), "Bool", nil)
 			if id, ok := s.Lhs[0].(*ast.Ident); ok && s.Tok == token.DEFINE {
 				if _, has := env[id.Name]; !has || e.info.Defs[id] != nil {
 					env[id.Name] = vals[0]
@@ -497,8 +504,7 @@ func (e *Eng) execTypeSwitch(st *State, s *ast.TypeSwitchStmt) *State {
 			} else {
 				t := e.info.TypeOf(tx)
 				if sortOf(t) == "Iface" {
-					e.gap("type switch case on interface type abstracted")
-					c1 = e.freshVal("implements", types.Typ[types.Bool]).T
+					c1 = e.implTerm(v, t)
 				} else {
 					c1 = fmt.Sprintf("(= (itag %s) %d)", v.T, e.tagOf(t))
 				}
@@ -616,6 +622,11 @@ func (e *Eng) ghostsAssignedIn(n ast.Node) map[types.Object]bool {
 			if ix, ok := ast.Unparen(as.Lhs[0]).(*ast.IndexExpr); ok {
 				if id, ok := ast.Unparen(ix.X).(*ast.Ident); ok {
 					keys = append(keys, "assign "+id.Name+"[*]")
+				}
+			}
+			if sx, ok := ast.Unparen(as.Lhs[0]).(*ast.SelectorExpr); ok {
+				if id, ok := ast.Unparen(sx.X).(*ast.Ident); ok {
+					keys = append(keys, "assign "+id.Name+".*")
 				}
 			}
 			for _, k := range keys {
@@ -1102,4 +1113,70 @@ func (e *Eng) evalRecv(st *State, x ast.Expr) {
 		return
 	}
 	e.eval(st, x)
+}
+
+// implTerm: "the dynamic type of v implements interface type t" as a deterministic uninterpreted predicate of
+// the dynamic type (so that two tests of the same value agree).
+func (e *Eng) implTerm(v *Val, t types.Type) string {
+	e.declareOnce("(declare-fun impl (Int Int) Bool)")
+	return fmt.Sprintf("(impl %d (itag %s))", e.tagOf(t), v.T)
+}
+
+// rhsNonNull: the assigned value is the result of a generated field function that completes a NonNull GraphQL
+// type - recognised by the callee ending in a call to a marshalN... function (gqlgen derives that name from the
+// schema type, independently of the object template that is being checked).
+func (e *Eng) rhsNonNull(rhs ast.Expr) bool {
+	call, ok := ast.Unparen(rhs).(*ast.CallExpr)
+	if !ok || e.funcIndex == nil {
+		return false
+	}
+	// root fields are wrapped: RootResolverMiddleware(ctx, func(ctx) Marshaler { return ec._T_f(ctx, field) })
+	for _, a := range call.Args {
+		if fl, ok := ast.Unparen(a).(*ast.FuncLit); ok {
+			res := false
+			ast.Inspect(fl.Body, func(n ast.Node) bool {
+				if rs, ok := n.(*ast.ReturnStmt); ok && len(rs.Results) == 1 {
+					if e.rhsNonNull(rs.Results[0]) {
+						res = true
+					}
+				}
+				return true
+			})
+			if res {
+				return true
+			}
+		}
+	}
+	key, sig, _ := calleeKey(e.info, call)
+	if sig == nil {
+		return false
+	}
+	ref := e.funcIndex.byKey[key]
+	if ref == nil || ref.fd.Body == nil {
+		return false
+	}
+	nn := false
+	ast.Inspect(ref.fd.Body, func(n ast.Node) bool {
+		if _, isLit := n.(*ast.FuncLit); isLit {
+			return false
+		}
+		rs, ok := n.(*ast.ReturnStmt)
+		if !ok || len(rs.Results) != 1 {
+			return true
+		}
+		if c, ok := ast.Unparen(rs.Results[0]).(*ast.CallExpr); ok {
+			name := ""
+			switch f := c.Fun.(type) {
+			case *ast.SelectorExpr:
+				name = f.Sel.Name
+			case *ast.Ident:
+				name = f.Name
+			}
+			if strings.HasPrefix(name, "marshalN") {
+				nn = true
+			}
+		}
+		return true
+	})
+	return nn
 }
